@@ -42,6 +42,8 @@ func (ms msgServer) SetPower(ctx context.Context, msg *poa.MsgSetPower) (*poa.Ms
 		if err := ms.k.AcceptNewValidator(ctx, msg.ValidatorAddress, msg.Power); err != nil {
 			return nil, err
 		}
+	} else if err := ms.k.ensureActiveValidator(ctx, msg.ValidatorAddress); err != nil {
+		return nil, err
 	}
 
 	// Sets the new POA power to the validator.
